@@ -22,6 +22,7 @@ Key design decisions (LOCKED):
 - HERMETIC = true (no network access, local resolution only)
 """
 
+import errno
 import hashlib
 import os
 import re
@@ -430,6 +431,25 @@ def resolve_hermetic_standard(standard_ref: str, cache_dir: Path | None = None) 
     )
 
 
+def _resolve_without_links(candidate: Path) -> Path:
+    """Resolve a path, following symlinks, and refuse a result that still contains one.
+
+    At a symlink loop resolve() and os.path.realpath() stop following links and only
+    normalise the remaining components lexically, so what they return can still pass
+    through a link. A containment check on such a path says nothing about the file that
+    would be opened, so it is refused instead.
+
+    Raises:
+        OSError: If the path cannot be resolved to a location free of symlinks
+        RuntimeError: If resolve() reports a symlink loop
+    """
+    resolved = Path(os.path.realpath(candidate.resolve()))
+    for part in (resolved, *resolved.parents):
+        if part.is_symlink():
+            raise OSError(errno.ELOOP, "path does not resolve to a location free of symlinks")
+    return resolved
+
+
 def validate_source_uri(source_uri: str, base_path: Path) -> Path:
     """Validate SOURCE_URI for security and return resolved path.
 
@@ -475,10 +495,7 @@ def validate_source_uri(source_uri: str, base_path: Path) -> Path:
     # Check 2: Resolve and verify within base
     # resolve() follows symlinks and returns absolute path
     try:
-        resolved = candidate.resolve()
-        # A symlink loop makes resolve() stop early: the components after the loop are only
-        # normalised lexically and may still contain links. Resolve the result again.
-        resolved = Path(os.path.realpath(resolved))
+        resolved = _resolve_without_links(candidate)
     except (OSError, ValueError, RuntimeError) as e:
         raise SourceUriSecurityError(
             source_uri,
@@ -1242,8 +1259,8 @@ def _check_single_snapshot(
     # (2) post-resolution containment check, (3) hash verification
     try:
         candidate = base_path / source_uri
-        source_path = candidate.resolve()  # Follows symlinks
-    except (OSError, ValueError) as e:
+        source_path = _resolve_without_links(candidate)  # Follows symlinks
+    except (OSError, ValueError, RuntimeError) as e:
         return StalenessResult(
             namespace=namespace,
             status="ERROR",
